@@ -38,7 +38,7 @@ if ! go build -tags verif $RACE -o "$BUILD/$id_lc" "./cmd/$id_lc" 2>"$BUILD/buil
   echo "BUILD-FAILED property=$ID" >&2
   exit 3
 fi
-export GORACE="${GORACE:-halt_on_error=0 atexit_sleep_ms=0 log_path=$BUILD/race}"
+export GORACE="${GORACE:-halt_on_error=0 exitcode=0 atexit_sleep_ms=0 log_path=$BUILD/race}"
 "$BUILD/$id_lc"
 rc=$?
 exit $rc
